@@ -346,7 +346,16 @@ fn products(short: &[Vec<u8>]) -> Vec<ADesc> {
 }
 
 fn direction1(report: &Report, tier: Tier) {
-    let values = byte_values(tier.pick(2, 3));
+    let mut values = byte_values(tier.pick(2, 3));
+    // single-field sweeps only: every single byte value too (alone and after a plain character).
+    // The set of bytes that may stay unescaped is a union of ranges, and its edges ('[', '^', '`',
+    // '{', '@', '+', ...) are exactly where an encoder/decoder table goes wrong.
+    for b in 0..=255u8 {
+        if !BYTES.contains(&b) {
+            values.push(vec![b]);
+            values.push(vec![b'a', b]);
+        }
+    }
     let short = byte_values(1);
     report.set("byte_values", json!(values.len()));
     report.note("empty field values are outside the space: `key=` with nothing after it is not an address (libdbus rejects it), so such a value has no string form");
